@@ -31,6 +31,7 @@ type KqSnap struct {
 	VnodePaths      []string
 	MapSizes        []int
 	MapKeys         []string // string keys of every map reachable from the backend
+	KeyTabs         map[string][]string // key -> names of the struct fields (tables) that hold it
 }
 
 func (x *Exec) nInst() int                { return 0 }
@@ -282,18 +283,26 @@ func (x *Exec) snapshot(label string) {
 	for _, wr := range x.W {
 		if wr.W != nil {
 			s.MapSizes = append(s.MapSizes, mapSizes(verifBackend(wr.W))...)
-			s.MapKeys = append(s.MapKeys, mapStringKeys(verifBackend(wr.W))...)
+			keys, tabs := mapStringKeys(verifBackend(wr.W))
+			s.MapKeys = append(s.MapKeys, keys...)
+			if s.KeyTabs == nil {
+				s.KeyTabs = map[string][]string{}
+			}
+			for i, k := range keys {
+				s.KeyTabs[k] = append(s.KeyTabs[k], tabs[i])
+			}
 		}
 	}
 	x.kq.snaps = append(x.kq.snaps, s)
 }
 
 // mapStringKeys returns the string keys of every map reachable from v.
-func mapStringKeys(v interface{}) []string {
-	var out []string
+func mapStringKeys(v interface{}) (keys, tabs []string) {
+	type kt struct{ k, t string }
+	var out []kt
 	seen := map[uintptr]bool{}
-	var walk func(rv reflect.Value, depth int)
-	walk = func(rv reflect.Value, depth int) {
+	var walk func(rv reflect.Value, depth int, field string)
+	walk = func(rv reflect.Value, depth int, field string) {
 		if depth > 6 {
 			return
 		}
@@ -303,29 +312,33 @@ func mapStringKeys(v interface{}) []string {
 				return
 			}
 			seen[rv.Pointer()] = true
-			walk(rv.Elem(), depth+1)
+			walk(rv.Elem(), depth+1, field)
 		case reflect.Interface:
 			if !rv.IsNil() {
-				walk(rv.Elem(), depth+1)
+				walk(rv.Elem(), depth+1, field)
 			}
 		case reflect.Struct:
 			if strings.HasPrefix(rv.Type().PkgPath(), "verifsim/") {
 				return
 			}
 			for i := 0; i < rv.NumField(); i++ {
-				walk(rv.Field(i), depth+1)
+				walk(rv.Field(i), depth+1, rv.Type().Field(i).Name)
 			}
 		case reflect.Map:
 			if rv.Type().Key().Kind() == reflect.String {
 				for _, k := range rv.MapKeys() {
-					out = append(out, k.String())
+					out = append(out, kt{k.String(), field})
 				}
 			}
 		}
 	}
-	walk(reflect.ValueOf(v), 0)
-	sort.Strings(out)
-	return out
+	walk(reflect.ValueOf(v), 0, "")
+	sort.Slice(out, func(i, j int) bool { return out[i].k < out[j].k || out[i].k == out[j].k && out[i].t < out[j].t })
+	for _, e := range out {
+		keys = append(keys, e.k)
+		tabs = append(tabs, e.t)
+	}
+	return keys, tabs
 }
 
 // execute runs the scenario under the given chooser.
